@@ -1,6 +1,8 @@
 """Bounded stand-ins that exercise whole pipelines on the real code against the
 concrete reference codec (spec/ref.py).  Labelled bounded in the evidence and
 never counted as discharged obligations."""
+import datetime
+import decimal
 import json
 import os
 
@@ -10,17 +12,17 @@ from spec import ref
 VERIF = os.path.dirname(os.path.dirname(os.path.abspath(__file__)))
 
 
-def _violation(prop, what, job, expected, observed):
+def _violation(prop, what, job, expected, observed, against='the reference codec'):
     import hashlib
     sig = json.dumps(job, sort_keys=True, default=repr)
     fname = os.path.join('replays', prop, 'pipeline-%s.json' % hashlib.sha1(sig.encode()).hexdigest()[:16])
     os.makedirs(os.path.join(VERIF, 'replays', prop), exist_ok=True)
     with open(os.path.join(VERIF, fname), 'w') as fh:
-        json.dump({'property': prop, 'obligation': what + ' (bounded pipeline check against the reference codec)',
+        json.dump({'property': prop, 'obligation': what + ' (bounded pipeline check against %s)' % against,
                    'unit': what, 'replay': {'confirmed': True, 'args': job.get('args'), 'expected': expected,
                                             'observed': observed, 'job': job},
                    'input_signature': sig, 'rerun': './check replay %s' % fname}, fh, indent=1, default=repr)
-    return (fname, True, {'name': what, 'detail': 'real code disagrees with the reference codec'})
+    return (fname, True, {'name': what, 'detail': 'real code disagrees with %s' % against})
 
 
 def field_values(prop, tier, rng):
@@ -227,8 +229,26 @@ def decode_budget(prop, tier, rng):
         m = bytearray(good)
         m[7 + 4 + 5:7 + 4 + 9] = struct.pack('>I', 0x08000000)      # the arguments table itself
         frames.append(bytes(m))
-    # content header with a headers table
     frames = frames[:400]
+    # deep nesting: a value that fails to decode at the bottom of d nested tables / arrays (work must stay linear in the
+    # input, not multiply per level), and the intact version
+    for d in (4, 8, 12, 16, 20, 24):
+        for container in ('table', 'array'):
+            inner = {'a': 1} if container == 'table' else [1]
+            for _ in range(d):
+                inner = {'a': inner} if container == 'table' else [inner]
+            try:
+                table = ref.enc_table({'n': inner})
+            except ref.Refused:
+                continue
+            payload = struct.pack('>I', 0x0032000A) + b'\x00\x00' + b'\x01q' + b'\x00' + table
+            good = b'\x01\x00\x01' + struct.pack('>I', len(payload)) + payload + b'\xce'
+            frames.append(good)
+            at = good.rfind(b'\x01')          # the innermost scalar's value octet; its tag precedes it
+            for tag in (b'l', b'd', b'T', b'S', b'x', b'A', b'F', b'D'):
+                m = bytearray(good)
+                m[at - 1:at] = tag
+                frames.append(bytes(m))
     jobs = [{'target': 'pyvc.probe.unmarshal_measured', 'args': [values.encode(f)], 'wall_s': 5, 'step_budget': 3000000}
             for f in frames]
     outs = replay.native_calls(jobs, timeout=900)
@@ -252,3 +272,159 @@ def decode_budget(prop, tier, rng):
                  'length fields (tracemalloc, sys.settrace): the time / memory clauses of C08 are only measured, not proved',
          'inputs': len(jobs), 'worst_steps_per_octet': round(worst[0], 1), 'worst_peak_octets_per_octet': round(worst[1], 1),
          'failures': len(viol), 'bounded': True}]}}
+
+
+# ---------------------------------------------------------------- API session: every call gives what it gives in a fresh interpreter
+SESSION_KINDS = {
+    'marshal': ('C01', 'C04', 'C10', 'C12', 'C16'), 'views': ('C19', 'C16', 'C12'), 'default': ('C16', 'C14', 'C06'),
+    'header': ('C16', 'C02', 'C06'), 'unmarshal': ('C05', 'C01', 'C02', 'C16', 'C09'), 'table': ('C03', 'C12', 'C16', 'C10'),
+    'scalar': ('C03', 'C11', 'C12', 'C16', 'C10'), 'texts': ('C16',),
+}
+
+
+def _session_jobs(rng, n_per_class):
+    import string
+    from spec import tables
+    jobs = []
+
+    def value(m, f):
+        fixed = {fn: p for fn, kind, p in tables.constraints(m) if kind == 'fixed'}
+        maxlen = {fn: p for fn, kind, p in tables.constraints(m) if kind == 'maxlen'}
+        if f.name in fixed:
+            return fixed[f.name]
+        w = f.wire
+        if w == 'bit':
+            return rng.random() < 0.6
+        if w in ('octet', 'short', 'long', 'longlong'):
+            hi = {'octet': 255, 'short': 65535, 'long': 2 ** 32 - 1, 'longlong': 2 ** 64 - 1}[w]
+            return rng.choice([0, 1, hi, rng.randrange(hi + 1)])
+        if w in ('shortstr', 'longstr'):
+            n = rng.randrange(0, min(12, maxlen.get(f.name, 12)) + 1)
+            return ''.join(rng.choice(string.ascii_letters + string.digits + '-_.:') for _ in range(n))
+        if w == 'table':
+            try:
+                t = ref.gen_table(rng, 2)
+                ref.enc_table(t)
+                return t
+            except ref.Refused:
+                return {}
+        if w == 'timestamp':
+            return datetime.datetime(2020, 2, 29, 12, 0, rng.randrange(60), tzinfo=datetime.timezone.utc)
+        raise ValueError(w)
+
+    for m in tables.METHODS:
+        for _ in range(n_per_class):
+            attrs = {f.name: value(m, f) for f in m.fields}
+            enc = {k: values.encode(v) for k, v in attrs.items()}
+            jobs.append(('marshal', {'target': 'pyvc.probe.session_marshal',
+                                     'args': [m.name, {'__dict__': [[k, v] for k, v in enc.items()]}, rng.choice([0, 1, 40000])]}))
+        attrs = {f.name: value(m, f) for f in m.fields}
+        jobs.append(('views', {'target': 'pyvc.probe.session_views',
+                               'args': [m.name, {'__dict__': [[k, values.encode(v)] for k, v in attrs.items()]}]}))
+        jobs.append(('texts', {'target': 'pyvc.probe.session_texts',
+                               'args': [m.name, {'__dict__': [[k, values.encode(v)] for k, v in attrs.items()]}]}))
+        jobs.append(('default', {'target': 'pyvc.probe.session_default', 'args': [m.name]}))
+    jobs.append(('views', {'target': 'pyvc.probe.session_views', 'args': ['Basic.Properties', {'__dict__': [
+        ['content_type', 'a/b'], ['delivery_mode', 2], ['headers', values.encode({'k': 1})]]}]}))
+    for mutate in (True, False, True):
+        jobs.append(('header', {'target': 'pyvc.probe.session_header', 'args': [mutate]}))
+    from pyvc.replay import wire_corpus
+    for data in wire_corpus():
+        if data[:1] in (b'\x01', b'\x02', b'\x03', b'\x08', b'A') and len(data) < 4000:
+            jobs.append(('unmarshal', {'target': 'pyvc.probe.session_unmarshal', 'args': [values.encode(data)]}))
+    for _ in range(10):
+        try:
+            t = ref.gen_table(rng, 2)
+            ref.enc_table(t)
+        except ref.Refused:
+            continue
+        bad = dict(t)
+        bad['bad'] = rng.choice([2 ** 70, -2 ** 70])       # no integer wire type holds it: the encode fails part-way
+        jobs.append(('table', {'target': 'pyvc.probe.session_table', 'args': [values.encode(bad)]}))
+        jobs.append(('table', {'target': 'pamqp.encode.field_table', 'args': [values.encode(t)]}))
+        jobs.append(('table', {'target': 'pyvc.probe.decode_table', 'args': [values.encode(ref.enc_table(t))]}))
+    D = decimal.Decimal
+    scalars = [True, 1.0, D('1'), False, 0.0, -0.0, 1, 0, D('2.5'), D('2.50'), D('7.0'), D('7.00'), 255, 256, -1, 2 ** 31, 'x', '']
+    for v in scalars + scalars[::-1]:
+        jobs.append(('scalar', {'target': 'pamqp.encode.encode_table_value', 'args': [values.encode(v)]}))
+    for v in [D('2.5'), D('2.50'), D('7.00'), D('7.0'), D('-0.010')]:
+        jobs.append(('scalar', {'target': 'pamqp.encode.decimal', 'args': [values.encode(v)]}))
+    for legacy in (False, True):
+        for n in (0, 200, 40000, -40000, 2 ** 31, 2 ** 32 - 1, -129):
+            jobs.append(('scalar', {'target': 'pamqp.encode.table_integer', 'args': [n],
+                                    'globals': {'pamqp.encode.DEPRECATED_RABBITMQ_SUPPORT': legacy}}))
+    return jobs
+
+
+def _same_outcome(a, b):
+    if a.get('outcome') != b.get('outcome'):
+        return False
+    if a['outcome'] == 'raise':
+        return a.get('exc') == b.get('exc')
+    if a['outcome'] == 'return':
+        return a.get('value') == b.get('value')
+    return True
+
+
+def session_history(prop, tier, rng):
+    """C16 as stated (and the history clauses of the other properties), bounded: a long session of API calls in ONE process -
+    constructions with defaults, encodes, decodes of valid and malformed frames, failed encodes, mapping views, both
+    values of the switch - in which every call must give exactly what the same call gives in a forked child in which
+    no call of the session has run.  The objects a call returns are scribbled on afterwards, so shared mutable state
+    between results or defaults shows up in a later call."""
+    jobs = _session_jobs(rng, 2 if tier == 'thorough' else 1)
+    mine = {k for k, props in SESSION_KINDS.items() if prop in props}
+    order = list(range(len(jobs)))
+    seq = []
+    for _ in range(3 if tier == 'thorough' else 2):
+        rng.shuffle(order)
+        seq += order
+    from concurrent.futures import ThreadPoolExecutor
+    iso = [dict(j, isolate=True, wall_s=5) for _, j in jobs]
+    chunks = [iso[k::8] for k in range(8)]
+    with ThreadPoolExecutor(9) as ex:
+        hist_f = ex.submit(replay.native_calls, [jobs[i][1] for i in seq], 900)
+        parts = list(ex.map(lambda c: replay.native_calls(c, 900), chunks))
+        hist = hist_f.result()
+    fresh = [None] * len(iso)
+    for k, part in enumerate(parts):
+        fresh[k::8] = part
+    viol, checked = [], 0
+    reported = set()
+    for pos, (i, obs) in enumerate(zip(seq, hist)):
+        kind, job = jobs[i]
+        exp = fresh[i]
+        if kind not in mine or i in reported or exp.get('outcome') not in ('return', 'raise') or \
+                obs.get('outcome') not in ('return', 'raise', 'budget'):
+            continue
+        checked += 1
+        if _same_outcome(exp, obs):
+            continue
+        reported.add(i)
+        # shrink: one earlier call of the session followed by this one, in a child of their own
+        prefix = [jobs[k][1] for k in seq[:pos]]
+        culprit = None
+        seen = set()
+        for k in reversed(seq[:pos]):
+            if k in seen:
+                continue
+            seen.add(k)
+            if len(seen) > 150:
+                break
+            r = replay.native_calls([{'isolate': True, 'sequence': [jobs[k][1], job]}], timeout=120)[0]
+            if r.get('outcome') == 'sequence' and not _same_outcome(exp, r['results'][1]):
+                culprit = jobs[k][1]
+                break
+        sequence = [culprit, job] if culprit else prefix + [job]
+        v = _violation(prop, job['target'], dict(job, isolate=True, sequence=sequence),
+                       'the outcome of the same call in a fresh child: %s' % json.dumps(exp)[:300], obs,
+                       against='the same call in a fresh interpreter')
+        viol.append(v)
+        if len(viol) >= 5:
+            break
+    return {'violations': viol, 'coverage': {'bounded_pipeline_checks': [
+        {'what': 'API session in one process (%d calls of %d distinct: marshal of every method class, mapping views after repr/str, '
+                 'default constructions, content headers, frame decodes of a grammar corpus with results scribbled on, failing and '
+                 'valid table encodes, equal-valued scalars of different types, both switch values): each call compared with the '
+                 'same call in a forked child where no call of the session has run' % (len(seq), len(jobs)),
+         'inputs': checked, 'kinds_checked_for_this_property': sorted(mine), 'failures': len(viol), 'bounded': True}]}}
